@@ -57,6 +57,14 @@ def cases(tier, seed):
                                     continue
                                 out.append(dict(n=n, blocks=list(blocks), deg=deg, dtypes=dt, mode=mode, fd=fd if isinstance(fd, str) else list(fd),
                                                 solver=solver, total=3 if qk else 4, seed=seed))
+    # degenerate explicit pair with eigenvectors localised on disjoint, unequally large site sets
+    for n in (6,) if qk else (6, 7):
+        for blocks in ((2,), (2, 1), (3,)):
+            for dt in ("rr", "rc", "cc"):
+                for mode in ("herm", "nonherm"):
+                    for fd in ((), (0,)):
+                        out.append(dict(n=n, blocks=list(blocks), deg="pair", dtypes=dt, mode=mode, fd=list(fd), solver="direct",
+                                        total=3, seed=seed, layout="localized"))
     kpm = [dict(n=5, blocks=[1], deg="none", dtypes="rr", mode="herm", fd=[], solver="kpm", total=2, seed=seed),
            dict(n=5, blocks=[1, 1], deg="none", dtypes="rr", mode="herm", fd=[], solver="kpm", total=2, seed=seed),
            dict(n=5, blocks=[2], deg="none", dtypes="cc", mode="herm", fd=[], solver="kpm-atol", total=2, seed=seed),
@@ -91,6 +99,12 @@ def problem(case):
     if ch0:
         A = A + 1j * rng.normal(size=(n, n))
     herm = case["mode"] == "herm"
+    if case.get("layout") == "localized":
+        # the degenerate explicit pair lives on disjoint site sets of different size (2 sites / n - 2 sites)
+        A[:, 0] = 0
+        A[:2, 0] = 1
+        A[:, 1] = 0
+        A[2:, 1] = np.exp(1j * np.arange(n - 2)) if ch0 else 1
     if case["mode"] != "nonherm-RL":
         Q, _ = np.linalg.qr(A)
         Rm, Lm = Q, Q
